@@ -179,3 +179,29 @@ Definition chip_order_ok (m : pmachine) (co : list chip) : Prop :=
 (* a caller-supplied vertex order lists exactly the vertices of the problem *)
 Definition vertex_order_ok (vr : vresources) (vo : list vertex) : Prop :=
   forall v, In v vo <-> In v (map fst vr).
+
+(* ---------------------------------------------------------------------------------------------- *)
+(* A cheaper checker for large placements: the loads of all chips are accumulated in one pass       *)
+(* ---------------------------------------------------------------------------------------------- *)
+Fixpoint cadd (c : chip) (x : Z) (l : list (chip * Z)) : list (chip * Z) :=
+  match l with
+  | [] => [(c, x)]
+  | (c', v) :: t => if chip_eqb c c' then (c', v + x) :: t else (c', v) :: cadd c x t
+  end.
+
+Definition chip_loads (vr : vresources) (pl : placement) (r : res) : list (chip * Z) :=
+  fold_left (fun acc vd => match zassoc (fst vd) pl with
+                           | Some c => cadd c (rget r (snd vd)) acc
+                           | None => acc
+                           end) vr [].
+
+Definition check_placement_fast (vr : vresources) (m : pmachine) (cs : list pconstr) (pl : placement) : bool :=
+  nodupb (map fst pl)
+  && forallb (fun v => zmem v (map fst vr)) (map fst pl)
+  && forallb (fun v => zmem v (map fst pl)) (map fst vr)
+  && forallb (fun vc => live m (snd vc)) pl
+  && forallb (fun r => forallb (fun cq => negb (live m (fst cq))
+                                          || (snd cq <=? Z.max 0 (capacity m (fst cq) r - reserved cs (fst cq) r)))
+                               (chip_loads vr pl r))
+             (dedup (all_resources vr m cs))
+  && forallb (check_constraint pl) cs.
